@@ -92,6 +92,16 @@ CLAIMED = {
         "Decides three structural conditions of the flush-to-zero contract: mask 0x8040; every float-computing opcode carries the FLOAT flag that alone triggers set_mxcsr; the emulator (and via C04 the C templates) reads float operands through ORC_DENORMAL and flushes arithmetic results. IEEE results, NaN propagation, conversion saturation and bit-for-bit agreement are not decided.",
         "Trusted: family table in rules/c18.py (confirmed by reading).",
         "DESIGN.md §4 C18"),
+    "C17": (
+        "effect analysis over the compile call-graph slice (deny-listed nondeterminism sources must be dominated by the documented randomize test; process-wide variables written by the slice may be read only by the allocator), confinement of allocator outputs to placement fields, reader set of the debug level, emission-layer write set vs the reset set between the two passes of orc_x86_compile, pointer-derived immediates, stores into the program",
+        "Decides that nothing on the compile path (1.4k functions, all back ends) draws on rand/time/pid/environment outside the documented randomize mode, that compile history can reach the result only through the code-memory placement fields, that the debug level is read only by the logging module, that the x86 emission state is reset between the sizing pass and the real pass, that no emitted immediate is computed from an address, and that the compile driver only reads the program. Byte-for-byte equality of two compilations is not executed.",
+        "Trusted: call graph with indirect calls resolved through function-pointer slots (object-insensitive); allow-table PASS_CARRY with reasons in rules/c17.py.",
+        "DESIGN.md §4 C17"),
+    "C20": (
+        "structural checks on the registry code: definition/use of the rule-slot index against the opcode-major filter (must-facts), sizing expression of rules[], sentinel-before-index, loop direction and skip condition of the rule search, who-looks-up-\"sys\", registration order via call-graph reachability, record fields holding OrcOpcodeSet pointers",
+        "Decides that rule lookup indexes a rule set only with the index computed in the opcode's own set and after the major comparison, that rule arrays are sized by that set, that an unknown name is rejected, that later rule sets win when their flags are satisfied, that emulation dispatches through the instruction's own opcode and no compile/run-path code assumes the sys set, that built-in names win lookup because sys is registered first, and that nothing persistent points into the reallocated set array. Results of programs mixing built-in and extension opcodes are not decided.",
+        "Trusted: clang AST/CFG; call graph.",
+        "DESIGN.md §4 C20"),
 }
 
 NOT_YET = "check under construction in this round; not claimed until its rules are exact on the current tree"
